@@ -72,7 +72,7 @@ Definition show_state (s : sf) : list N :=
   let idx := sort_by (fun a b => bytes_ltb (fst a) (fst b)) (index_of (tiles s)) in
   let fm := fm_of (tiles s) in
   [tiles_len (tiles s); nseq s; N.of_nat (length idx)]
-  ++ flat_map (fun e => blen (fst e) :: fst e ++ [fst (snd e)]) idx
+  ++ flat_map (fun e => blen (fst e) :: fst e ++ [snd e]) idx
   ++ [N.of_nat (length fm)]
   ++ flat_map (fun r => [fst r; snd r]) fm.
 
@@ -92,6 +92,58 @@ Definition show_mut (code : N) (s : sf) (r : res (option (list step * sf))) : li
   | Ok None => ([code; 3], s)
   | Err => ([code; 1], s)
   | Panic => ([code; 2], s)
+  end.
+
+(* tile lists after each storage step of the next mutating operation, and the remaining tokens *)
+Definition stages_of (s : sf) (l : list N) : option (list (list tile) * list N) :=
+  let of_write (rid : bytes) (ss : list stream) (exp : N) (r : list N) :=
+      match write_stages (tiles s) (nseq s) rid ss (exp_for s rid ss exp) with
+      | Some st => Some (map snd st, r)
+      | None => None
+      end in
+  match l with
+  | 10 :: r =>
+      match rd_bytes r with
+      | Some (rid, n :: r1) =>
+          match rd_streams (N.to_nat n) r1 [] with
+          | Some (ss, exp :: r2) => of_write rid ss exp r2
+          | _ => None
+          end
+      | _ => None
+      end
+  | 11 :: r =>
+      match rd_bytes r with
+      | Some (rid, r1) =>
+          match remove_record s rid with
+          | Ok (_, s') => Some ([tiles s'], r1)
+          | _ => Some ([], r1)
+          end
+      | None => None
+      end
+  | 20 :: id :: r =>
+      match rd_payload r with
+      | Some (vec, r1) =>
+          match rd_payload r1 with
+          | Some (meta, exp :: r2) => of_write (doc_rid id) [(0, meta); (1, vec)] exp r2
+          | _ => None
+          end
+      | None => None
+      end
+  | 21 :: id :: r =>
+      match rd_payload r with
+      | Some (meta, exp :: r1) =>
+          match get_document s id with
+          | Ok (_, vec) => of_write (doc_rid id) [(0, meta); (1, vec)] exp r1
+          | _ => Some ([], r1)
+          end
+      | _ => None
+      end
+  | 22 :: id :: r =>
+      match remove_document s id with
+      | Ok (_, s') => Some ([tiles s'], r)
+      | _ => Some ([], r)
+      end
+  | _ => None
   end.
 
 (* ---------- one operation ---------- *)
@@ -171,8 +223,8 @@ Definition run_op (s : sf) (l : list N) : option (list N * sf * list N) :=
                  | Panic => [26; 2]
                  end in
       Some (out, s, r)
-  | 30 :: _ :: _ :: _ :: _ :: r =>
-      match open_image (flatten (tiles s)) with
+  | 30 :: _mode :: _ :: _ :: _ :: r =>
+      match open_image (negb (_mode =? 2)) (flatten (tiles s)) with
       | Ok s' => Some ([30; 0], s', r)
       | Err => Some ([30; 1], s, r)
       | Panic => Some ([30; 2], s, r)
@@ -187,6 +239,24 @@ Definition run_op (s : sf) (l : list N) : option (list N * sf * list N) :=
       | None => None
       end
   | 41 :: r => Some ([41; 0], s, r)
+  | 50 :: j :: r =>
+      (* the next operation is cut after j storage steps; the file is then opened again (read-write) *)
+      match stages_of s r with
+      | Some (stages, r') =>
+          let ts := match j with
+                    | 0 => tiles s
+                    | _ => match nth_error stages (N.to_nat j - 1) with
+                           | Some t => t
+                           | None => last stages (tiles s)
+                           end
+                    end in
+          match open_image true (flatten ts) with
+          | Ok s' => Some ([50; 0], s', r')
+          | Err => Some ([50; 1], s, r')
+          | Panic => Some ([50; 2], s, r')
+          end
+      | None => None
+      end
   | 32 :: r => let img := flatten (tiles s) in Some ([32; blen img; hash_bytes img], s, r)
   | _ => None
   end.
@@ -206,7 +276,7 @@ Fixpoint run_ops (fuel : nat) (s : sf) (l : list N) (out_rev : list (list N)) : 
   end.
 
 Definition initial_sf : sf :=
-  match open_image initial_image with
+  match open_image true initial_image with
   | Ok s => s
   | _ => {| tiles := []; nseq := 0 |}
   end.
